@@ -3,9 +3,11 @@ package sim
 import (
 	"bytes"
 	"crypto/sha256"
+	"errors"
 	"fmt"
 	"math/rand/v2"
 	"os"
+	"path/filepath"
 	"sort"
 	"strings"
 	"testing"
@@ -131,6 +133,7 @@ func init() {
 			c.Progs = append(c.Progs, out)
 			c.P["composition"] = int64(r.IntN(2))
 			c.P["index_absent"] = int64(r.IntN(4) / 3)
+			c.P["rofail"] = int64([]int{0, 0, 1, 2}[r.IntN(4)])
 			_ = u
 			return c
 		},
@@ -163,6 +166,38 @@ func evalC15(t *testing.T, c *Case, st *Stats, relax Relax) *Violation {
 		}
 		if err != nil {
 			return &Violation{Prop: c.Prop, Oracle: "harness", Detail: "twin: " + err.Error()}
+		}
+		// 2b. a read-only first open that cannot find a root (no drive at all, or a tape that cannot be
+		// indexed with these keys) fails with a permission error and creates / appends nothing
+		if rf := c.Param("rofail", 0); rf != 0 {
+			fo := OpenOpts{ReadOnly: true, NoWriteOps: c.Param("composition", 0) == 1, Index: x.W.NewIndexPath()}
+			what := ""
+			switch {
+			case rf == 1:
+				fo.Drive = filepath.Join(x.W.Dir, "no-such-drive.tar")
+				what = "no drive file"
+			case c.Cfg.Encryption != "" || c.Cfg.Signature != "":
+				fo.Drive, fo.KeySet = td, 1
+				what = "a tape written under other keys"
+			}
+			if what != "" {
+				before, _ := os.ReadFile(fo.Drive)
+				fst, ferr := x.W.Open(fo)
+				if fst != nil {
+					fst.Close()
+				}
+				after, aerr := os.ReadFile(fo.Drive)
+				x.Stats.Add("read_only_first_open_without_root", 1)
+				if rf == 1 && aerr == nil {
+					return &Violation{Prop: c.Prop, Oracle: "read-only-creates-drive", Detail: fmt.Sprintf("read-only first open over %s created the drive (%d bytes), Initialize returned %v", what, len(after), ferr)}
+				}
+				if rf != 1 && !bytes.Equal(before, after) {
+					return &Violation{Prop: c.Prop, Oracle: "read-only-changes-tape", Detail: fmt.Sprintf("read-only first open over %s changed the tape (%d -> %d bytes), Initialize returned %v", what, len(before), len(after), ferr)}
+				}
+				if ferr == nil || !errors.Is(ferr, os.ErrPermission) {
+					return &Violation{Prop: c.Prop, Oracle: "mutator-not-refused-with-permission-error", Detail: fmt.Sprintf("read-only first open over %s: Initialize would have to create a root and must fail with a permission error, it returned %v", what, ferr)}
+				}
+			}
 		}
 		// 3. the read-only instance
 		oo := OpenOpts{ReadOnly: true, NoWriteOps: c.Param("composition", 0) == 1}
